@@ -343,7 +343,8 @@ func runCase(t *testing.T, rnd *hx.Rand, caseNo int, nops int, withStore bool, i
 			store.VerifRegister(w.storeURL, w.fs)
 			cc.Store = w.storeURL
 		}
-		w.cfg = []config.CacheConfig{cc}
+		// the cache under test sits between two others with different hit-for-pass periods
+		w.cfg = []config.CacheConfig{{Name: name + "-before", Size: 8, HitForPass: "7s"}, cc, {Name: name + "-after", Size: 8, HitForPass: "9s"}}
 		cache.ResetDispatchers(w.cfg)
 		defer func() {
 			cache.ResetDispatchers(nil)
@@ -424,9 +425,21 @@ func runCase(t *testing.T, rnd *hx.Rand, caseNo int, nops int, withStore bool, i
 				return outcome{Kind: "fail-panic"}
 			}
 		}
+		// one case in four is "calm": no purge, corruption or store faults, longer ticks — long undisturbed
+		// lifetimes and hit-for-pass periods, evictions and restarts only
+		calm := caseNo%4 == 3
+		if calm {
+			dist["calm-case"]++
+		}
 		for k := 0; k < nops; k++ {
 			ups := upstreamThreads()
 			x := rnd.Intn(100)
+			if calm {
+				x = []int{10, 10, 10, 40, 40, 40, 60, 60, 60, 87, 90}[rnd.Intn(11)]
+				if x == 90 && !allDone() {
+					x = 87
+				}
+			}
 			switch {
 			case x < 34 && len(w.threads) < 14:
 				pass := rnd.Chance(6)
@@ -437,6 +450,9 @@ func runCase(t *testing.T, rnd *hx.Rand, caseNo int, nops int, withStore bool, i
 				release(ups[rnd.Intn(len(ups))], genOutcome())
 			case x < 78:
 				ms := []int{200, 400, 600, 1000, 1000, 1500, 2000, 3000, 5000, 301000}[rnd.Intn(10)]
+				if calm {
+					ms = []int{1000, 2000, 4000, 8000, 8000, 20000, 100000, 250000}[rnd.Intn(8)]
+				}
 				time.Sleep(time.Duration(ms) * time.Millisecond)
 				record(op{Kind: "tick", Ms: ms}, fmt.Sprintf("(OpTick %d)", ms))
 				dist["tick"]++
